@@ -1,10 +1,186 @@
 package main
 
-// runControls is filled in by controls_*.go; see DESIGN.md §4.
+import (
+	"fmt"
+	"go/token"
+	"go/types"
+	"os"
+	"path/filepath"
+	"strings"
+
+	"golang.org/x/tools/go/packages"
+	"golang.org/x/tools/go/ssa"
+)
+
+// runControls loads the tiny controls package next to the checker sources and
+// demands, for each analysis primitive, that it accepts the conforming
+// example and rejects the violating one. A failing control marks the run as
+// broken (exit 2): nothing the rules report could be believed.
 func runControls(r *Report) {
-	for _, c := range controlFuncs {
-		c(r)
+	dir := controlsDir()
+	if dir == "" {
+		r.Broken("controls package not found next to the checker")
+		return
+	}
+	fset := token.NewFileSet()
+	cfg := &packages.Config{
+		Mode: packages.NeedName | packages.NeedFiles | packages.NeedCompiledGoFiles | packages.NeedImports | packages.NeedDeps |
+			packages.NeedTypes | packages.NeedSyntax | packages.NeedTypesInfo | packages.NeedTypesSizes,
+		Dir: dir, Fset: fset, Env: goEnv(),
+	}
+	pkgs, err := packages.Load(cfg, ".")
+	if err != nil || len(pkgs) != 1 || len(pkgs[0].Errors) > 0 {
+		r.Broken("controls package does not load: %v %v", err, pkgErrs(pkgs))
+		return
+	}
+	prog := ssa.NewProgram(fset, ssa.InstantiateGenerics)
+	created := map[string]bool{}
+	packages.Visit(pkgs, nil, func(pk *packages.Package) {
+		if pk.Types == nil || created[pk.PkgPath] {
+			return
+		}
+		created[pk.PkgPath] = true
+		if pk.TypesInfo != nil && len(pk.Syntax) > 0 {
+			prog.CreatePackage(pk.Types, pk.Syntax, pk.TypesInfo, true)
+		} else {
+			prog.CreatePackage(pk.Types, nil, nil, true)
+		}
+	})
+	sp := prog.Package(pkgs[0].Types)
+	sp.Build()
+	fn := func(name string) *ssa.Function {
+		if i := strings.Index(name, "."); i >= 0 {
+			t := sp.Members[name[:i]].(*ssa.Type)
+			ms := prog.MethodSets.MethodSet(types.NewPointer(t.Type()))
+			sel := ms.Lookup(sp.Pkg, name[i+1:])
+			return prog.MethodValue(sel)
+		}
+		f, _ := sp.Members[name].(*ssa.Function)
+		return f
+	}
+	type ctl struct {
+		name      string
+		good, bad string
+		test      func(f *ssa.Function) bool
+	}
+	callTo := func(f *ssa.Function, name string) ssa.CallInstruction {
+		cs := Calls(f, false, name)
+		if len(cs) == 0 {
+			return nil
+		}
+		return cs[0]
+	}
+	ctls := []ctl{
+		{"facts-polarity", "DomGood", "DomBad", func(f *ssa.Function) bool {
+			g := callTo(f, "grant")
+			_, pol, found := CallFact(g.Block(), "verify")
+			return found && pol
+		}},
+		{"err-ok", "ErrOKGood", "ErrOKBad", func(f *ssa.Function) bool {
+			return ErrOK(callTo(f, "grant").Block(), callTo(f, "acquire"))
+		}},
+		{"exit-obligation", "ExitGood", "ExitBad", func(f *ssa.Function) bool {
+			acq := callTo(f, "acquire")
+			var start *ssa.BasicBlock
+			for _, b := range f.Blocks {
+				if ErrOK(b, acq) && (start == nil || b.Dominates(start)) {
+					start = b
+				}
+			}
+			hits := WalkFrom(start, nil, func(in ssa.Instruction) int {
+				if OrDeferred(IsCallTo("release"))(in) {
+					return Stop
+				}
+				if _, ok := in.(*ssa.Return); ok {
+					return Hit
+				}
+				return Cont
+			}, nil)
+			return len(hits) == 0
+		}},
+		{"lockset", "guarded.LockGood", "guarded.LockBad", func(f *ssa.Function) bool {
+			ls := ComputeLockSets(f, nil)
+			ok := true
+			Instrs(f, func(in ssa.Instruction) {
+				if fa, isFA := in.(*ssa.FieldAddr); isFA && fieldName(fa.X.Type(), fa.Field) == "m" {
+					if ls.Held(in, "mu") == "" {
+						ok = false
+					}
+				}
+			})
+			return ok
+		}},
+		{"read-shape", "ReadGood", "ReadBad", func(f *ssa.Function) bool {
+			for _, c := range Calls(f, false, "Read") {
+				if ClassifyRead(c).Shape == "full" {
+					return true
+				}
+			}
+			return false
+		}},
+		{"read-error-exits", "LoopGood", "LoopBad", func(f *ssa.Function) bool {
+			ok, _ := readErrorLeavesLoopIdiom(callTo(f, "Read"))
+			return ok
+		}},
+		{"writer-retention", "qwriter.WriteGood", "qwriter.WriteBad", func(f *ssa.Function) bool {
+			return retains(f.Params[1], 0, map[ssa.Value]bool{}) == ""
+		}},
+		{"zero-expiry-guard", "ExpGood", "ExpBad", func(f *ssa.Function) bool {
+			ok := false
+			for _, c := range Calls(f, false, "time:Time.After") {
+				for _, ft := range Facts(c.Block()) {
+					if zc, isC := stripValue(ft.Cond).(*ssa.Call); isC && CalleeOf(zc).Is("time:Time.IsZero") && !ft.Pol {
+						ok = true
+					}
+				}
+			}
+			return ok
+		}},
+	}
+	for _, c := range ctls {
+		g, b := fn(c.good), fn(c.bad)
+		if g == nil || b == nil {
+			r.Broken("control %s: example functions missing", c.name)
+			continue
+		}
+		okG, okB := safeTest(c.test, g), safeTest(c.test, b)
+		if okG && !okB {
+			r.Controls = append(r.Controls, c.name+": accepts "+c.good+", rejects "+c.bad)
+		} else {
+			r.Broken("control %s failed: primitive says good=%v bad=%v (want true,false)", c.name, okG, okB)
+		}
 	}
 }
 
-var controlFuncs []func(r *Report)
+func safeTest(t func(*ssa.Function) bool, f *ssa.Function) (ok bool) {
+	defer func() {
+		if e := recover(); e != nil {
+			ok = false
+		}
+	}()
+	return t(f)
+}
+
+func pkgErrs(pkgs []*packages.Package) string {
+	var out []string
+	for _, p := range pkgs {
+		for _, e := range p.Errors {
+			out = append(out, e.Error())
+		}
+	}
+	return fmt.Sprint(out)
+}
+
+func controlsDir() string {
+	var cands []string
+	if exe, err := os.Executable(); err == nil {
+		cands = append(cands, filepath.Join(filepath.Dir(exe), "controls"))
+	}
+	cands = append(cands, "/verif/checker/controls")
+	for _, c := range cands {
+		if _, err := os.Stat(filepath.Join(c, "controls.go")); err == nil {
+			return c
+		}
+	}
+	return ""
+}
